@@ -71,6 +71,15 @@ class Ref:
                     return
             if a[2] is not None:
                 for b in a[2]: r.run1(b)
+        elif k == 'foreach':        # ('foreach', array, item, index, body); arrays are not modified by generated content
+            for i, v in enumerate(list(r.env[a[1]])):
+                r.env[a[2]] = v
+                if a[3]: r.env[a[3]] = i + 1
+                for b in a[4]: r.run1(b)
+        elif k == 'script':
+            r.env[a[1]] = ev_expr(a[2], r.env, r.confids())
+        elif k == 'logev':
+            r.cur['acts'].append(('log', a[1], '"%s"' % r.env.get('_evname')))
         elif k == 'fail':           # ('fail', error event name, xml text): an element whose execution fails
             r.iq.append(a[1]); r.raised.append(a[1]); raise BlockAbort()
         elif k == 'xml':
@@ -194,6 +203,7 @@ class Ref:
 
     # ------------------------------------------------------------------ microstep
     def microstep(r, ts, evname):
+        if evname: r.env['_evname'] = evname
         r.cur = {'ev': evname, 'acts': [], 'trans': [(t.source.id, t.idx) for t in ts], 'before': sorted(r.confids()),
                  'enabled': [(t.source.id, t.idx) for t in r.last_enabled]}
         ex = sorted(r.exit_set(ts), key=lambda s: -s.order)
@@ -325,6 +335,7 @@ class Ref:
             if not ts:
                 if not r.iq: break
                 evn = r.iq.popleft()
+                r.env['_evname'] = evn
                 ts = r.select(evn)
                 if not ts:
                     r.steps.append({'ev': evn, 'acts': [], 'trans': [], 'conf': sorted(r.confids()), 'noop': True, 'q': 'i'})
@@ -340,6 +351,7 @@ class Ref:
         return True
 
     def external(r, evn):
+        r.env['_evname'] = evn
         ts = r.select(evn)
         if ts:
             r.microstep(ts, evn); r.cur['q'] = 'e'
